@@ -205,8 +205,11 @@ class Check:
         self.rule = ""
         self.checker_cmds = []
         self.thorough = tier == "thorough"
-        kf = json.load(open(os.path.join(VERIF, "known_findings.json")))
-        self.known = {f["key"]: f for f in kf["findings"] if f["property"] == pid and f["status"] == "open"}
+        kf = json.load(open(os.path.join(VERIF, "known_findings.json")))["findings"]
+        extra = os.path.join(VERIF, "findings", pid + ".json")   # work in progress, merged by tools/merge.py
+        if os.path.exists(extra):
+            kf = kf + json.load(open(extra))
+        self.known = {f["key"]: f for f in kf if f["property"] == pid and f["status"] == "open"}
         self.known_hit = {}
 
     # ------------------------------------------------------------- L1
